@@ -1,6 +1,7 @@
 import N2k.Lemmas.IsoRequestOut
 import N2k.Lemmas.IsoRequestContent
 import N2k.Lemmas.IsoRequestRetry
+import N2k.Lemmas.IsoRequestRun
 import N2k.Props.C01
 /-!
 # C08 — ISO requests (PGN 59904) are always answered: data for the mandatory PGNs, NAK otherwise
@@ -458,6 +459,158 @@ theorem C08_content_config (d : Dev) (c : Config) :
       have := parseVar_field (optCstr c.manuf) []
       rwa [List.append_nil] at this
 
+/-! ## histories: every request is answered, also while earlier answers are pending -/
+
+/-- **C08_every_request_answered_partial.** Run level, over EVERY history `evs` of the node model (`Ev`: polls that
+receive an ISO request for any PGN, to any destination, from any source; empty polls; clock advances; the driver
+changing its accept/refuse decisions; devices starting address claims) from ANY state `n0` — so also while earlier
+answers are still pending — and for every request event in it (`evs = pre ++ rq m :: post`; `s` = the node state in
+which the request is handled, i.e. after that poll's `SendFrames` and `SendPendingInformation`):
+
+* the list of everything the history hands to `SendMsg` contains, at that event and as one contiguous block, exactly
+  the specified answer and nothing else for this request —
+  addressed to device `i`: `deviceAnswers s … true P i` = nothing while `i`'s claim is pending, otherwise the requested
+  data (claim / both lists / product / configuration information / the handler's messages) or exactly one NAK naming
+  `P` for the requester (`C08_addressed_answered`, `C08_nak_format` spell the block out);
+  broadcast: the blocks of all devices in order, none of which contains a NAK of the library;
+* a request for another node's address draws nothing.
+
+What is MISSING for the full statement (hence `_partial`): this is the message level — "handed to `SendMsg`". That an
+accepting driver makes `SendMsg` succeed and puts the frames on the bus is proved per message (`C08_nak_on_bus`, C01,
+C11) but not composed over the history; the delayed case is `C08_owed_product_*` / `C08_owed_config_*` below, whose fairness hypothesis speaks about the retry
+timer being due at a poll, not about the driver;
+"nothing is answered twice" is proved as "one block per request" here plus `C08_no_retry_after_success`, not as a
+count over the frames on the bus (a fast packet cut by a refusal is repeated in full by the retry). -/
+theorem C08_every_request_answered_partial (h : Option Handler) (n0 : Node) (pre post : List Ev) (m : Msg)
+    (hmode : (rqState (run h n0 pre).1).1.st.claimMode = true) :
+    ∃ before after : List OutMsg,
+      (run h n0 (pre ++ Ev.rq m :: post)).2 = before ++ (handleISORequest (rqState (run h n0 pre).1).1 m h).2 ++ after ∧
+      (∀ i, m.dst ≠ 255 → findSourceDeviceIndex (rqState (run h n0 pre).1).1.st.devs m.dst = some i →
+        (handleISORequest (rqState (run h n0 pre).1).1 m h).2 =
+          deviceAnswers (rqState (run h n0 pre).1).1 h m.src true (requestedPGN m) i) ∧
+      (m.dst ≠ 255 → findSourceDeviceIndex (rqState (run h n0 pre).1).1.st.devs m.dst = none →
+        (handleISORequest (rqState (run h n0 pre).1).1 m h).2 = []) ∧
+      (m.dst = 255 →
+        (handleISORequest (rqState (run h n0 pre).1).1 m h).2 =
+          (List.range (rqState (run h n0 pre).1).1.st.devs.length).flatMap
+            (deviceAnswers (rqState (run h n0 pre).1).1 h m.src false (requestedPGN m)) ∧
+        ∀ o ∈ (handleISORequest (rqState (run h n0 pre).1).1 m h).2,
+          (o.msg.pgn = 60928 ∨ o.msg.pgn = 126464 ∨ o.msg.pgn = 126996 ∨ o.msg.pgn = 126998) ∨
+          (∃ hd, h = some hd ∧ o.msg ∈ hd.sends (requestedPGN m) m.src o.dev)) := by
+  refine ⟨(run h n0 pre).2 ++ (rqState (run h n0 pre).1).2,
+    (run h (step h (run h n0 pre).1 (Ev.rq m)).1 post).2, ?_, ?_, ?_, ?_⟩
+  · rw [run_append]
+    simp only [run, step, pollRq_out, handleReceived, hmode, ↓reduceIte, List.append_assoc]
+  · intro i hdst hfind
+    unfold handleISORequest
+    rw [if_neg hdst, hfind]
+    exact respond_out _ _ _ _ _ _
+  · intro hdst hfind
+    unfold handleISORequest
+    rw [if_neg hdst, hfind]
+  · intro hdst
+    exact C08_broadcast_never_nak _ m h hdst
+
+/-- **C08_refused_product_arms.** The delayed case begins: an addressed request for 126996 to a device that is not
+claiming leaves the device's pending data as `afterProd … ok …`, `ok` = what `SendMsg` answered for the product
+information; so a refused hand-over (`ok = false`) establishes `Inv`: the retry timer holds `now + 187 + 8·source`
+and the device is flagged. -/
+theorem C08_refused_product_arms (n : Node) (m : Msg) (h : Option Handler) (i : Nat) (d : Dev) (x : DevX) (p : Product)
+    (hdst : m.dst ≠ 255) (hfind : findSourceDeviceIndex n.st.devs m.dst = some i)
+    (hd : n.st.devs[i]? = some d) (hx : n.ext[i]? = some x)
+    (hnc : (isAddressClaimStarted n.st.flavor n.st.now d).2 = false)
+    (hP : requestedPGN m = 126996) (hp : resolveProd n.ext i = some p)
+    (href : (sendMsg { n.st with devs := updDev n.st.devs i (isAddressClaimStarted n.st.flavor n.st.now d).1 }
+              (productMsg (isAddressClaimStarted n.st.flavor n.st.now d).1 p) (some i)).2 = false) :
+    Inv n.st.flavor i (Sched.fromNow n.st.flavor n.st.now (187 + d.source * 8)) (handleISORequest n m h).1 := by
+  unfold handleISORequest
+  rw [if_neg hdst, hfind]
+  simp only [respond, hd, hx, hnc, Bool.false_eq_true, ↓reduceIte]
+  unfold answer
+  rw [hP, if_neg (by decide), if_neg (by decide), if_pos rfl]
+  have hd1 := getElem?_updDev_self n.st.devs i d (isAddressClaimStarted n.st.flavor n.st.now d).1 hd
+  unfold sendProductInformation
+  simp only [hd1, hp]
+  refine ⟨?_, afterProd n.st false d.source x, ?_, by simp [afterProd], by simp [afterProd]⟩
+  · exact (finishProd_same _ _ _ _).1.1
+  · have := finishProd_get { n with st := { n.st with devs := updDev n.st.devs i (isAddressClaimStarted n.st.flavor n.st.now d).1 } }
+      i (isAddressClaimStarted n.st.flavor n.st.now d).1.source
+      (productMsg (isAddressClaimStarted n.st.flavor n.st.now d).1 p) x hx
+    rw [href] at this
+    rw [ics_source] at this ⊢
+    simp only [afterProd] at this ⊢
+    exact this
+
+/-- **C08_owed_product_invariant.** While the product information of device `i` is owed (`Inv`: its retry timer is
+armed with `v` and the device is flagged), NO history can lose it: after any events — further requests to this or other
+devices, for any PGN, answered or refused, configuration-information retries, polls, clock advances, driver changes,
+address claims — either the product information of device `i` has been handed to `SendMsg` again (`Sent`), or the
+timer is still armed with `v` and the flag still set. -/
+theorem C08_owed_product_invariant (f : Flavor) (i : Nat) (v : Sched) (hen : v.isEnabled f = true)
+    (h : Option Handler) (evs : List Ev) (n : Node) (hi : Inv f i v n) :
+    Sent i (run h n evs).2 ∨ Inv f i v (run h n evs).1 :=
+  good_run hen h evs n hi
+
+/-- **C08_owed_product_answered.** Fairness, stated explicitly: IF the history contains a `ParseMessages()` (`e`: an
+empty poll or one that receives any request) at a moment when the armed timer is due (`v.isTime`; for
+`v = now₀ + 187 + 8·source` see `C08_retry_due_t64/_t32`) — the device and its product information still existing
+there — THEN the owed product information is handed to `SendMsg` within the history, at that poll at the latest. (Whether
+that attempt reaches the bus is again the driver's decision; if it is refused, `C08_retry_product_armed` re-arms the
+timer and this theorem applies again.) -/
+theorem C08_owed_product_answered (f : Flavor) (i : Nat) (v : Sched) (hen : v.isEnabled f = true)
+    (h : Option Handler) (mid rest : List Ev) (e : Ev) (n : Node) (hi : Inv f i v n)
+    (he : e = Ev.poll ∨ ∃ m, e = Ev.rq m)
+    (hdue : v.isTime f (run h n mid).1.st.now = true)
+    (hd : ∃ d, (run h n mid).1.st.devs[i]? = some d) (hp : ∃ p, resolveProd (run h n mid).1.ext i = some p) :
+    Sent i (run h n (mid ++ e :: rest)).2 := by
+  rw [run_append]
+  rcases good_run hen h mid n hi with h1 | h1
+  · exact Sent.left _ h1
+  · apply Sent.right
+    show Sent i ((step h (run h n mid).1 e).2 ++ _)
+    apply Sent.left
+    rcases he with rfl | ⟨m, rfl⟩
+    · exact sent_poll hen _ _ h1 hdue hd hp
+    · exact sent_poll hen _ _ h1 hdue hd hp
+
+/-- **C08_owed_config_invariant / _answered.** The same for the configuration information (`InvC`: timer `v`, armed by a
+refused hand-over with `now + 187 + 10·source`, see `C08_retry_config_armed`): no history loses it — in particular not
+the product-information retry that comes first (`C08_retry_both`) — and a `ParseMessages()` at which the timer is due
+hands it to `SendMsg` again (`SentC`: the configuration information, or its "not available" if the configuration was
+removed meanwhile). -/
+theorem C08_owed_config_invariant (f : Flavor) (i : Nat) (v : Sched) (hen : v.isEnabled f = true)
+    (h : Option Handler) (evs : List Ev) (n : Node) (hi : InvC f i v n) :
+    SentC i (run h n evs).2 ∨ InvC f i v (run h n evs).1 :=
+  goodC_run hen h evs n hi
+
+theorem C08_owed_config_answered (f : Flavor) (i : Nat) (v : Sched) (hen : v.isEnabled f = true)
+    (h : Option Handler) (mid rest : List Ev) (e : Ev) (n : Node) (hi : InvC f i v n)
+    (he : e = Ev.poll ∨ ∃ m, e = Ev.rq m)
+    (hdue : v.isTime f (run h n mid).1.st.now = true)
+    (hd : ∃ d, (run h n mid).1.st.devs[i]? = some d) :
+    SentC i (run h n (mid ++ e :: rest)).2 := by
+  rw [run_append]
+  rcases goodC_run hen h mid n hi with h1 | h1
+  · exact SentC.left _ h1
+  · apply SentC.right
+    show SentC i ((step h (run h n mid).1 e).2 ++ _)
+    apply SentC.left
+    rcases he with rfl | ⟨m, rfl⟩
+    · exact sentC_poll hen _ _ h1 hdue hd
+    · exact sentC_poll hen _ _ h1 hdue hd
+
+/-- **C08_no_retry_after_success.** Nothing is answered twice by the retry machinery: a successful hand-over clears the
+timer (`C08_retry_delays`), a cleared timer is never due (64-bit scheduler: clock below 2^64), and a device whose two
+timers are not due is left alone by `SendPendingInformation` (`C08_retry_poll_idle`). -/
+theorem C08_no_retry_after_success (f : Flavor) (now : Nat) (h64 : f = .t64 → now < M64) :
+    (Sched.disabled f).isTime f now = false := by
+  cases f with
+  | t32 => simp [Sched.isTime, Sched.disabled]
+  | t64 =>
+    have := h64 rfl
+    simp only [Sched.isTime, Sched.disabled, disabledVal, M64] at *
+    simp; omega
+
 /-! ## the hypotheses are satisfiable: a concrete node -/
 
 def demoDev : Dev :=
@@ -503,5 +656,25 @@ example : (sendMsg refusingNode.st (productMsg demoDev demoProd) (some 0)).2 = f
 example : (Sched.fromNow .t64 5000 (187 + 34 * 8)).isTime .t64 5460 = true := by decide
 -- C08_content_*
 example : demoDev.name < 2^64 ∧ (∀ p ∈ demoDev.txList, p < 2^24) ∧ (∀ b ∈ demoProd.modelID, b ≠ 0xff) := by decide
+
+-- C08_every_request_answered_partial / C08_owed_product_*: two requests while the driver refuses (2-slot queue), then
+-- the driver accepts and a poll comes after both retry times: both answers are handed over again
+def demoHistory : List Ev :=
+  [Ev.rq (demoRq 34 126996), Ev.rq (demoRq 34 126998), Ev.drv [] true, Ev.tick 600, Ev.poll]
+set_option maxRecDepth 100000 in
+example : ((run none refusingNode demoHistory).2.map fun o => (o.dev, o.msg.pgn)) =
+    [(0, 126996), (0, 126998), (0, 126996), (0, 126998)] := by decide +kernel
+set_option maxRecDepth 100000 in
+example : (rqState refusingNode).1.st.claimMode = true ∧
+    findSourceDeviceIndex (rqState refusingNode).1.st.devs (demoRq 34 126996).dst = some 0 := by decide +kernel
+set_option maxRecDepth 100000 in
+example : Inv .t64 0 (Sched.fromNow .t64 5000 (187 + 34 * 8)) (run none refusingNode [Ev.rq (demoRq 34 126996)]).1 :=
+  ⟨by decide +kernel, _, rfl, by decide +kernel, by decide +kernel⟩
+set_option maxRecDepth 100000 in
+example : InvC .t64 0 (Sched.fromNow .t64 5000 (187 + 34 * 10))
+    (run none refusingNode [Ev.rq (demoRq 34 126996), Ev.rq (demoRq 34 126998)]).1 :=
+  ⟨by decide +kernel, _, rfl, by decide +kernel, by decide +kernel⟩
+example : (Sched.fromNow .t64 5000 (187 + 34 * 8)).isEnabled .t64 = true ∧
+    (Sched.fromNow .t64 5000 (187 + 34 * 8)).isTime .t64 5600 = true := by decide
 
 end N2k.C08
